@@ -50,6 +50,17 @@ fn make(req: &Value) -> Result<Interpreter, E> {
         if idx >= tx.get_ninputs() {
             return Err(drv("interp idx out of range"));
         }
+        // scripts of the spending input handed over as element lists through the construction API (conditionals may be FLAT opcodes)
+        if let Some(ab) = req.get("api_bits") {
+            let mut inp = tx.get_input(idx).ok_or_else(|| drv("api_bits idx"))?;
+            if let Some(u) = ab.get("unlock") {
+                inp.set_unlocking_script(&Script::from_script_bits(bits_from_json(u)?));
+            }
+            if let Some(l) = ab.get("lock") {
+                inp.set_locking_script(&Script::from_script_bits(bits_from_json(l)?));
+            }
+            tx.set_input(idx, &inp);
+        }
         Interpreter::from_transaction(&tx, idx).map_err(lib)
     }
 }
@@ -162,6 +173,25 @@ fn interp(req: &Value) -> R {
             Err(p) => json!({ "panic": p }),
         };
         o["run"] = json!({"end": end, "detail": detail, "post": post, "script_index": b.script_index()});
+        // an interpreter that stopped with an error asked to continue: it must keep failing and keep its stacks
+        if end == "err" && bo(req, "after_finish") {
+            let again = match guarded(|| b.run()) {
+                Ok(Ok(())) => json!("ok"),
+                Ok(Err(_)) => json!("err"),
+                Err(p) => json!({ "panic": p }),
+            };
+            let nxt = match guarded(|| b.next()) {
+                Ok(None) => json!("none"),
+                Ok(Some(Ok(_))) => json!("state"),
+                Ok(Some(Err(_))) => json!("err"),
+                Err(p) => json!({ "panic": p }),
+            };
+            let post2 = match guarded(|| b.state()) {
+                Ok(s) => state_json(&s),
+                Err(p) => json!({ "panic": p }),
+            };
+            o["after_error"] = json!({"run_again": again, "next_again": nxt, "post": post2, "script_index": b.script_index()});
+        }
         // a finished interpreter asked to continue: run() again and next() again must change nothing
         if end == "ok" && bo(req, "after_finish") {
             let again = match guarded(|| b.run()) {
